@@ -121,7 +121,7 @@ Proof.
   destruct (beqb (cls r) (cls k)) eqn:E.
   - apply beqb_spec in E.
     assert (Z : sumf (fun rc => if beqb (cls (fst rc)) (cls k) then f (fst rc) else r0 K) t = r0 K).
-    { rewrite <- (sumf_zero K t). apply sumf_ext. intros rc Hrc.
+    { transitivity (sumf (fun _ : A * nat => r0 K) t); [|apply sumf_zero]. apply sumf_ext. intros rc Hrc.
       destruct (beqb (cls (fst rc)) (cls k)) eqn:E2; [|reflexivity].
       apply beqb_spec in E2. exfalso.
       apply negb_true_iff in HD1.
@@ -167,12 +167,17 @@ Lemma wsum_one_total {A} (red : list (A * nat)) : wsum (K:=Zring) (fun _ => 1%Z)
 Proof.
   unfold wsum, total. induction red as [|[r c] t IH]; cbn [sumf fold_right fst snd]; [reflexivity|].
   rewrite IH. assert (N : forall n, nK (K:=Zring) n = Z.of_nat n).
-  { induction n as [|n IHn]; cbn [nK]; [reflexivity|]. rewrite IHn. cbn. lia. }
-  rewrite N. cbn. lia.
+  { induction n as [|n IHn]; cbn [nK]; [reflexivity|]. rewrite IHn. change (1 + Z.of_nat n = Z.of_nat (S n))%Z. lia. }
+  rewrite N.
+  change (Z.of_nat c * 1 + Z.of_nat (fold_right (fun rc s => (snd rc + s)%nat) 0%nat t) = Z.of_nat (c + fold_right (fun rc s => (snd rc + s)%nat) 0%nat t))%Z.
+  lia.
 Qed.
 
 Lemma sumf_one_length {A} (l : list A) : sumf (K:=Zring) (fun _ => 1%Z) l = Z.of_nat (length l).
-Proof. induction l as [|a l IH]; cbn [sumf length]; [reflexivity|]. rewrite IH. cbn. lia. Qed.
+Proof.
+  induction l as [|a l IH]; cbn [sumf length]; [reflexivity|]. rewrite IH.
+  change (1 + Z.of_nat (length l) = Z.of_nat (S (length l)))%Z. lia.
+Qed.
 
 Theorem valid_reduction_total A B (cls : A -> B) beqb (beqb_spec : forall a b, beqb a b = true <-> a = b) mesh red :
   valid_reductionb cls beqb mesh red = true -> total red = length mesh.
@@ -196,61 +201,111 @@ Proof.
   rewrite (Rmul_assoc R), (Rmul_comm R y x). reflexivity.
 Qed.
 
-(* the greedy model itself is a valid reduction *)
-Section Greedy.
-Variables A B : Type.
-Variable cls : A -> B.
-Variable beqb : B -> B -> bool.
-Hypothesis beqb_spec : forall a b, beqb a b = true <-> a = b.
+(* ---- Brillouin zone ------------------------------------------------------------------- *)
+Local Open Scope Z_scope.
 
-Lemma beqb_refl b : beqb b b = true. Proof. apply beqb_spec. reflexivity. Qed.
+Lemma bil_zero_r Q n : bil Q n vzero = 0.
+Proof. destruct n as [[a b] c]. unfold bil, gmul, dot3, vzero, vx, vy, vz; cbn [fst snd]. ring. Qed.
 
-Definition inv (mesh : list A) (acc : list (A * nat)) : Prop :=
-  distinctb beqb (map (fun rc => cls (fst rc)) acc) = true /\
-  (forall rc, In rc acc -> snd rc = count_class cls beqb (cls (fst rc)) mesh /\ 0 < snd rc) /\
-  (forall k, In k mesh -> existsb (fun rc => beqb (cls (fst rc)) (cls k)) acc = true).
+Lemma qf_zero Q : qf Q vzero = 0.
+Proof. unfold qf. apply bil_zero_r. Qed.
 
-Lemma existsb_insert k k' acc :
-  existsb (fun rc => beqb (cls (fst rc)) (cls k')) (insert cls beqb k acc) =
-  existsb (fun rc => beqb (cls (fst rc)) (cls k')) acc || beqb (cls k) (cls k').
+Lemma vadd_scale1 h : vadd (vscale 1 h) vzero = h.
+Proof. destruct h as [[a b] c]. unfold vadd, vscale, vzero, vx, vy, vz; cbn [fst snd]. f_equal; [f_equal|]; ring. Qed.
+
+Theorem inBZb_sound Q L c2 hmax n : inBZb Q L c2 hmax n = true ->
+  forall h : V3, 2 * bil Q n h <= L * qf Q h.
 Proof.
-  induction acc as [|[r c] t IH]; cbn [insert existsb fst]; [rewrite orb_false_r; reflexivity|].
-  destruct (beqb (cls r) (cls k)) eqn:E; cbn [existsb fst].
-  - apply beqb_spec in E. rewrite <- E. destruct (beqb (cls r) (cls k')); cbn; [reflexivity | rewrite orb_false_r; reflexivity].
-  - rewrite IH. rewrite orb_assoc. reflexivity.
+  unfold inBZb. intros H h.
+  apply andb_true_iff in H as [H HB]. apply andb_true_iff in H as [H HR].
+  apply andb_true_iff in H as [H HC]. apply andb_true_iff in H as [HP HL].
+  apply Z.ltb_lt in HL. apply Z.leb_le in HC.
+  destruct (in_dec V3_eq_dec h (box hmax)) as [I|I].
+  - rewrite forallb_forall in HB. specialize (HB h I). unfold bz_ineqb in HB. apply Z.leb_le in HB. exact HB.
+  - (* h outside the certified box: |h|^2 >= c2 >= 4|n|^2/L^2, conclude by Cauchy-Schwarz *)
+    assert (Q2 : c2 <= qf Q h).
+    { destruct (Z_lt_le_dec (qf Q h) c2) as [Lt|Ge]; [|exact Ge]. exfalso. apply I.
+      apply (range_ok_sound Q 1 c2 hmax vzero h vzero HP HR); [reflexivity|]. rewrite vadd_scale1. exact Lt. }
+    pose proof (cs_generic Q h n HP) as CS.
+    pose proof (posdef_nonneg Q h HP) as Ph. pose proof (posdef_nonneg Q n HP) as Pn.
+    set (b := bil Q n h) in *. set (qh := qf Q h) in *. set (qn := qf Q n) in *.
+    assert (S1 : (2 * b) * (2 * b) <= (L * qh) * (L * qh)).
+    { rewrite Z.pow_2_r in CS.
+      assert (A1 : 4 * (b * b) <= 4 * (qn * qh)) by lia.
+      assert (A2 : 4 * qn * qh <= L * L * c2 * qh) by (apply Z.mul_le_mono_nonneg_r; lia).
+      assert (P0 : 0 <= L * L * qh) by (apply Z.mul_nonneg_nonneg; [apply Z.square_nonneg | exact Ph]).
+      assert (A3 : L * L * qh * c2 <= L * L * qh * qh) by (apply Z.mul_le_mono_nonneg_l; assumption).
+      replace (2 * b * (2 * b)) with (4 * (b * b)) by ring.
+      replace (L * qh * (L * qh)) with (L * L * qh * qh) by ring.
+      replace (L * L * c2 * qh) with (L * L * qh * c2) in A2 by ring. lia. }
+    assert (P1 : 0 <= L * qh) by (apply Z.mul_nonneg_nonneg; lia).
+    destruct (Z_le_gt_dec (2 * b) (L * qh)) as [Le|Gt]; [exact Le|]. exfalso.
+    assert (L * qh * (L * qh) < 2 * b * (2 * b)) by (apply Z.mul_lt_mono_nonneg; lia). lia.
 Qed.
 
-Lemma map_cls_insert k acc :
-  map (fun rc => cls (fst rc)) (insert cls beqb k acc) =
-  if existsb (fun rc => beqb (cls (fst rc)) (cls k)) acc then map (fun rc => cls (fst rc)) acc
-  else map (fun rc => cls (fst rc)) acc ++ [cls k].
+(* ---- soundness of the correspondence decision ------------------------------------------ *)
+Lemma first_false_none {A} (p : A -> bool) l i : first_false p l i = None -> forall a, In a l -> p a = true.
 Proof.
-  induction acc as [|[r c] t IH]; cbn [insert existsb map fst app]; [reflexivity|].
-  destruct (beqb (cls r) (cls k)) eqn:E; cbn [map fst orb]; [reflexivity|].
-  rewrite IH. destruct (existsb (fun rc => beqb (cls (fst rc)) (cls k)) t); reflexivity.
+  revert i. induction l as [|x l IH]; intros i H a Ha; [destruct Ha|]. cbn [first_false] in H.
+  destruct (p x) eqn:E; [|discriminate]. destruct Ha as [Ea|Ha]; [subst; exact E | eapply IH; eauto].
 Qed.
 
-Lemma distinctb_snoc l b : distinctb beqb l = true -> existsb (fun x => beqb x b) l = false -> distinctb beqb (l ++ [b]) = true.
+Theorem check_mesh_sound k : fst (check_mesh k) = 0%nat ->
+  (* every point of the full and of the reduced mesh lies in the closed first Brillouin zone *)
+  (forall n, In n (m_full k) \/ In n (map fst (m_red k)) -> forall h : V3, 2 * bil (m_Q k) n h <= m_L k * qf (m_Q k) h) /\
+  (* the counts are positive and add up to the size of the full mesh *)
+  (forall rc, In rc (m_red k) -> (0 < snd rc)%nat) /\ total (m_red k) = length (m_full k) /\
+  (* for EVERY ordered ring and EVERY function constant on the orbits of the operations the
+     count-weighted sum over the reduced mesh equals the sum over the full mesh *)
+  (forall (K : ordring) (f : V3 -> K),
+      (forall a b, cls_min (m_ops k) a = cls_min (m_ops k) b -> f a = f b) ->
+      wsum f (m_red k) = sumf f (m_full k)).
 Proof.
-  induction l as [|a l IH]; cbn [distinctb existsb app]; intros HD HE; [reflexivity|].
-  apply andb_true_iff in HD as [H1 H2]. apply orb_false_iff in HE as [E1 E2].
-  apply andb_true_iff. split; [|apply IH; assumption].
-  apply negb_true_iff. apply negb_true_iff in H1.
-  rewrite existsb_app. rewrite H1. cbn [existsb]. rewrite E1. reflexivity.
+  unfold check_mesh.
+  destruct (negb (posdefb (m_Q k) && forallb (fun T => isometryb T (m_Q k)) (m_ops k))); [cbn; discriminate|].
+  destruct (first_false (inBZb (m_Q k) (m_L k) (m_c2 k) (m_hmax k)) (m_full k) 0) eqn:E1; [cbn; discriminate|].
+  destruct (first_false (fun rc => inBZb (m_Q k) (m_L k) (m_c2 k) (m_hmax k) (fst rc)) (m_red k) 0) eqn:E2; [cbn; discriminate|].
+  destruct (valid_reductionb (cls_min (m_ops k)) veqb (m_full k) (m_red k)) eqn:E3; [|cbn; discriminate].
+  intros _. split; [|split; [|split]].
+  - intros n [Hn|Hn] h.
+    + apply (inBZb_sound _ _ _ _ _ (first_false_none _ _ _ E1 n Hn)).
+    + apply in_map_iff in Hn as (rc & E & Hrc). subst n.
+      apply (inBZb_sound _ _ _ _ _ (first_false_none _ _ _ E2 rc Hrc)).
+  - apply (valid_reduction_positive V3 V3 (cls_min (m_ops k)) veqb (m_full k) (m_red k) E3).
+  - apply (valid_reduction_total V3 V3 (cls_min (m_ops k)) veqb veqb_eq (m_full k) (m_red k) E3).
+  - intros K f Hf. apply (valid_reduction_integrates V3 V3 (cls_min (m_ops k)) veqb veqb_eq K f (m_full k) (m_red k) Hf E3).
 Qed.
 
-Lemma inv_step mesh k acc : inv mesh acc -> inv (mesh ++ [k]) (insert cls beqb k acc).
+(* orbit-invariant functions are constant on the classes of cls_min when the operations are closed
+   under composition up to the listed set: stated for the use made of it -- a function invariant under every listed
+   operation takes the same value at n and at every image T n *)
+Lemma vmin_cases a b : vmin a b = a \/ vmin a b = b.
+Proof. unfold vmin. destruct (vltb b a); [right | left]; reflexivity. Qed.
+
+Lemma fold_vmin_in n (all : list M3) : forall opsl m0,
+  (m0 = n \/ exists T, In T all /\ m0 = mulmv T n) -> incl opsl all ->
+  let r := fold_left (fun m T => vmin m (mulmv T n)) opsl m0 in
+  r = n \/ exists T, In T all /\ r = mulmv T n.
 Proof.
-  intros (HD & HN & HC). unfold inv. split; [|split].
-  - rewrite map_cls_insert.
-    destruct (existsb (fun rc => beqb (cls (fst rc)) (cls k)) acc) eqn:E; [exact HD|].
-    apply distinctb_snoc; [exact HD|].
-    rewrite <- E. clear. induction acc as [|[r c] t IH]; cbn [map existsb fst]; [reflexivity | rewrite IH; reflexivity].
-  - assert (CC : forall b, count_class cls beqb b (mesh ++ [k]) = (count_class cls beqb b mesh + (if beqb b (cls k) then 1 else 0))%nat).
-    { intro b. unfold count_class. rewrite filter_app, app_length. cbn [filter]. destruct (beqb b (cls k)); reflexivity. }
-    clear HC. induction acc as [|[r c] t IH]; cbn [insert].
-    + intros rc [E|[]]. subst rc. cbn [fst snd]. rewrite CC, beqb_refl. split; [|lia].
-      (* no earlier mesh point has the class of k: not derivable here, so carry it: count over mesh is 0
-         follows from the coverage invariant being false; handled by the caller through a stronger statement *)
-      Abort.
-End Greedy.
+  induction opsl as [|U opsl IH]; intros m0 H0 Hin; cbn [fold_left]; [exact H0|].
+  apply IH; [|intros x Hx; apply Hin; right; exact Hx].
+  destruct (vmin_cases m0 (mulmv U n)) as [E|E]; rewrite E; [exact H0|].
+  right. exists U. split; [apply Hin; left; reflexivity | reflexivity].
+Qed.
+
+(* the class representative is a member of the orbit *)
+Theorem cls_min_in_orbit ops n : cls_min ops n = n \/ exists T, In T ops /\ cls_min ops n = mulmv T n.
+Proof. unfold cls_min. apply (fold_vmin_in n ops ops n); [left; reflexivity | apply incl_refl]. Qed.
+
+(* ---- non-vacuity: 4x4 mesh of the square lattice under its point group D4 ------------- *)
+Example sqQ : metric := mkMetric 1 1 16 0 0 0.
+Example d4 : list M3 :=
+  [((1,0,0),(0,1,0),(0,0,1)); ((0,-1,0),(1,0,0),(0,0,1)); ((-1,0,0),(0,-1,0),(0,0,1)); ((0,1,0),(-1,0,0),(0,0,1));
+   ((1,0,0),(0,-1,0),(0,0,1)); ((-1,0,0),(0,1,0),(0,0,1)); ((0,1,0),(1,0,0),(0,0,1)); ((0,-1,0),(-1,0,0),(0,0,1))].
+Example mesh44 : list V3 := map (fun p => (fst p, snd p, 0)) (list_prod [2; 1; 0; -1] [2; 1; 0; -1]).
+Example mesh44_reduced :
+  map snd (reduce (cls_min d4) veqb mesh44) = [1; 4; 2; 4; 4; 1]%nat.
+Proof. vm_compute. reflexivity. Qed.
+Example mesh44_case : meshcase := mkMesh sqQ 4 2 (1, 1, 0) d4 mesh44 (reduce (cls_min d4) veqb mesh44).
+Example mesh44_ok : check_mesh mesh44_case = (0%nat, 6%nat). Proof. vm_compute. reflexivity. Qed.
+Example outside_BZ : inBZb sqQ 4 2 (1, 1, 0) (3, 0, 0) = false. Proof. vm_compute. reflexivity. Qed.
